@@ -66,6 +66,18 @@ def _cases(tier):
             for other in KEYSETS[::3]:
                 if other != ks:
                     yield {"space": "B", "sets": [ks, other, ks], "cmp": cname}
+    # keys whose text contains the separators a careless identity of a key SET would use (", ", ",", "|", " "): distinct key sets stay
+    # distinct whatever their joined spelling
+    pk = ["a", "b", "c", "a,b", "b,c", "a, b", "a|b", "a b"]
+    psets = [list(c) for n in (1, 2, 3) for c in itertools.combinations(pk, n)]
+    for k in (2, 3):
+        for sets in itertools.combinations(psets, k):
+            if k == 3 and (tier == "quick" and sum(len(x) for x in sets) > 5):
+                continue
+            if not any(len(key) > 1 for ks in sets for key in ks):
+                continue
+            for cname in ("exact", "number_1", "number_2", "percent_50", "percent_100"):
+                yield {"space": "B", "sets": [list(x) for x in sets], "cmp": cname}
     for k in range(2, fam + 1):
         for sets in itertools.combinations(KEYSETS, k):
             for cname in CMPSETS:
@@ -299,8 +311,10 @@ def execute(case):
                     return True
             return False
         edges = [(i, j) for i, j in itertools.combinations(range(n), 2) if rel(keysets[i], keysets[j])]
-        tokens = [f"{a}~{b}" for a, b in itertools.combinations(sorted(sets), 2)
-                  if rel(set(a), set(b))] + [f"k:{s}" for s in sets] + (["dup"] if len(set(sets)) < len(sets) else [])
+        nm = [s if isinstance(s, str) else "{" + ";".join(s) + "}" for s in sets]
+        tokens = [f"{nm[i]}~{nm[j]}" for i, j in itertools.combinations(range(n), 2) if rel(keysets[i], keysets[j])] if not all(isinstance(s, str) for s in sets) \
+            else [f"{a}~{b}" for a, b in itertools.combinations(sorted(sets), 2) if rel(set(a), set(b))]
+        tokens = tokens + [f"k:{x}" for x in nm] + (["dup"] if len(set(nm)) < len(nm) else [])
         site = "B:" + case["cmp"]
     gen = MetadataGenerator(str_types_registry=pipeline.make_str_registry())
     reg = ModelRegistry(*cmps)
